@@ -400,3 +400,21 @@ V("C01", "rename-locals", "silent", "", "rename locals in expected_data",
   (PDFF, "        allsum = tensorlib.concatenate(deltas + [self.nominal_rates])\n\n        nom_plus_delta = tensorlib.sum(allsum, axis=0)", "        stacked = tensorlib.concatenate(deltas + [self.nominal_rates])\n\n        nom_plus_delta = tensorlib.sum(stacked, axis=0)"))
 V("C01", "maskval-bool", "silent", "", "presence mask via bool()",
   (MD + "lumi.py", "        maskval = True if thismod else False\n", "        maskval = bool(thismod)\n"))
+
+# ------------------------------------------------------------------ C10
+V("C10", "tile-wrong-axis", "fire", "C10.R1", "lumi mask tiled on the sample axis",
+  (MD + "lumi.py", "tensorlib.astensor(self._lumi_mask), (1, 1, self.batch_size or 1, 1)", "tensorlib.astensor(self._lumi_mask), (1, self.batch_size or 1, 1, 1)"))
+V("C10", "sigmas-tile", "fire", "C10.R1", "constraint sigmas tiled on the last axis",
+  (CON, "self._sigmas = default_backend.tile(sigmas, (self.batch_size, 1))", "self._sigmas = default_backend.tile(sigmas, (1, self.batch_size))"))
+V("C10", "no-flatten", "fire", "C10.R2", "shapesys batched arm does not flatten the parameters",
+  (MD + "shapesys.py", "            flat_pars = tensorlib.reshape(pars, (-1,))", "            flat_pars = pars"))
+V("C10", "einsum-batch-letter", "fire", "C10.R2", "normfactor batched einsum without the batch letter",
+  (MD + "normfactor.py", "'msab,ma->msab', self.normfactor_mask, normfactors", "'msab,m...->msab', self.normfactor_mask, normfactors"))
+V("C10", "full-reduction", "fire", "C10.R3", "sample sum without axis",
+  (PDFF, "newresults = tensorlib.sum(newbysample, axis=0)", "newresults = tensorlib.sum(newbysample)"))
+V("C10", "strip-unconditional", "fire", "C10.R4", "gaussian means stripped unconditionally",
+  (CON, "        if self.batch_size is None:\n            normal_means = normal_means[0]\n", "        normal_means = normal_means[0]\n"))
+V("C10", "expected-strip", "fire", "C10.R4", "expected_data strips row 0 also when batched",
+  (PDFF, "        if self.batch_size is None:\n            return newresults[0]\n        return newresults", "        return newresults[0]"))
+V("C10", "constraint-no-flatten", "fire", "C10.R2", "poisson constraint batched arm does not flatten",
+  (CON, "            flat_pars = tensorlib.reshape(pars, (-1,))\n        nuispars", "            flat_pars = pars\n        nuispars"))
